@@ -4,7 +4,8 @@
 //! (b) handle scripts of C14's domain (only panics count here); (c) handles used after their
 //! file / parent directory was removed; (d) every operation on every EmbeddedFS path;
 //! (e) PhysicalFS roots with hostile on-disk content (non-UTF-8 names, dangling symlinks);
-//! (f) the async port (histories and handle use through the async API).
+//! (f) the async port (histories and handle use through the async API); (g) every async path
+//! operation once under futures::executor and async-std (the other parts use tokio).
 
 use super::common::*;
 use crate::config::*;
@@ -247,7 +248,7 @@ fn test_hostile(case: &HostileCase, st: &mut Stats, counting: bool) -> CaseResul
     }
 }
 
-const RULE: &str = "unrestricted domain, only panics count: (a) untyped histories vec(op,0..=40) incl. calls on and removal of the root and timestamp setters on every backend stack; (b) C14's read/seek and write/seek/flush scripts (zero-length buffers, offsets at 0, len+-1, far, i64::MIN/MAX, u64::MAX) on Mem/Phys/altroot/overlay/EmbeddedFS handles; (c) read, append and create handles used (read, seek, write, flush, drop) after their file, its directory or an ancestor was removed or turned into a file; (d) all 24 operations on every path of the EmbeddedFS path set incl. the root; (e) PhysicalFS roots prepared with std::fs to contain non-UTF-8 names and dangling symlinks, plain and behind altroot/overlay; (f) the same histories, reader scripts and walks through the async port on a tokio current-thread runtime; every call runs under catch_unwind with a recording panic hook; non-trivial = a case containing a root-targeted mutator, a reader positioned outside [0,len], a handle used after removal, a hostile directory entry or an EmbeddedFS root call";
+const RULE: &str = "unrestricted domain, only panics count: (a) untyped histories vec(op,0..=40) incl. calls on and removal of the root and timestamp setters on every backend stack; (b) C14's read/seek and write/seek/flush scripts (zero-length buffers, offsets at 0, len+-1, far, i64::MIN/MAX, u64::MAX) on Mem/Phys/altroot/overlay/EmbeddedFS handles; (c) read, append and create handles used (read, seek, write, flush, drop) after their file, its directory or an ancestor was removed or turned into a file; (d) all 24 operations on every path of the EmbeddedFS path set incl. the root; (e) PhysicalFS roots prepared with std::fs to contain non-UTF-8 names and dangling symlinks, plain and behind altroot/overlay; (f) the same histories, reader scripts and walks through the async port on a tokio current-thread runtime; (g) every async path operation once on an async physical and in-memory filesystem driven by futures::executor and by async-std; timestamp setters also with the ends of the SystemTime range; every call runs under catch_unwind with a recording panic hook; non-trivial = a case containing a root-targeted mutator, a reader positioned outside [0,len], a handle used after removal, a hostile directory entry or an EmbeddedFS root call";
 
 pub fn replay(v: &Value) -> CaseResult {
     let mut st = Stats::default();
@@ -262,6 +263,7 @@ pub fn replay(v: &Value) -> CaseResult {
             };
             test_stale(&case, &mut st, false)
         }
+        Some("c13-executors") => executor_sweep().map(|_| ()),
         Some("c13-hostile") => {
             let case = HostileCase {
                 alt: v.get("alt").and_then(|x| x.as_bool()).unwrap_or(false),
@@ -275,6 +277,87 @@ pub fn replay(v: &Value) -> CaseResult {
         Some("c15") | Some("c15-reader") | Some("c15-futures-drop") | Some("c15-walkrm") => only_panics(super::c15::replay(v)),
         _ => only_panics(hist_prop().replay(v)),
     }
+}
+
+// ---------------------------------------------------------------------------------------------
+// (g) the async port under executors other than tokio
+// ---------------------------------------------------------------------------------------------
+
+/// Every async path operation once, on a physical and (where KF-2 allows) an in-memory async
+/// filesystem, driven by `futures::executor` and by async-std: errors are fine, panics are not.
+fn executor_sweep() -> Result<u64, Failure> {
+    use vfs::async_vfs::{AsyncMemoryFS, AsyncPhysicalFS, AsyncVfsPath};
+    async fn battery(root: AsyncVfsPath, with_writers: bool) -> u64 {
+        use async_std::io::{ReadExt, WriteExt};
+        use futures::StreamExt;
+        let mut n = 0u64;
+        let t = crate::exec::time_of(1_000_000_000, 5);
+        let d = root.join("d/e").unwrap();
+        let f = root.join("d/f").unwrap();
+        let g = root.join("d/g").unwrap();
+        let _ = d.create_dir_all().await;
+        n += 1;
+        if with_writers {
+            if let Ok(mut h) = f.create_file().await {
+                let _ = h.write_all(b"content").await;
+                let _ = h.flush().await;
+            }
+            if let Ok(mut h) = f.append_file().await {
+                let _ = h.write_all(b" more").await;
+                let _ = h.flush().await;
+            }
+            n += 2;
+        }
+        for p in [&f, &d, &g, &root] {
+            let _ = p.exists().await;
+            let _ = p.metadata().await;
+            let _ = p.is_file().await;
+            let _ = p.is_dir().await;
+            let _ = p.set_modification_time(t).await;
+            let _ = p.set_access_time(t).await;
+            let _ = p.set_creation_time(t).await;
+            if let Ok(mut s) = p.read_dir().await {
+                while let Some(_x) = s.next().await {}
+            }
+            if let Ok(mut h) = p.open_file().await {
+                let mut v = vec![];
+                let _ = h.read_to_end(&mut v).await;
+            }
+            let _ = p.read_to_string().await;
+            if let Ok(mut w) = p.walk_dir().await {
+                while let Some(_x) = w.next().await {}
+            }
+            n += 12;
+        }
+        if with_writers {
+            let _ = f.copy_file(&g).await;
+            let _ = g.move_file(&root.join("d/h").unwrap()).await;
+            let _ = root.join("d").unwrap().copy_dir(&root.join("c").unwrap()).await;
+            let _ = root.join("c").unwrap().move_dir(&root.join("m").unwrap()).await;
+            n += 4;
+        }
+        let _ = f.remove_file().await;
+        let _ = d.remove_dir().await;
+        let _ = root.join("d").unwrap().remove_dir_all().await;
+        n + 3
+    }
+    let mut total = 0u64;
+    for exec_name in ["futures::executor::block_on", "async_std::task::block_on"] {
+        for backend in ["physical", "memory"] {
+            // KF-2: dropping an AsyncMemoryFS write handle under futures::executor panics (open finding)
+            let with_writers = !(exec_name.starts_with("futures") && backend == "memory");
+            let scratch = crate::util::Scratch::new("exec");
+            let root = if backend == "physical" { AsyncVfsPath::new(AsyncPhysicalFS::new(scratch.dir.clone())) } else { AsyncVfsPath::new(AsyncMemoryFS::new()) };
+            let r = guarded(|| crate::asyncfs::with_stdout_silenced(|| if exec_name.starts_with("futures") { futures::executor::block_on(battery(root.clone(), with_writers)) } else { async_std::task::block_on(battery(root.clone(), with_writers)) }));
+            match r {
+                Ok(n) => total += n,
+                Err(p) => {
+                    return Err(Failure { message: format!("async {} backend driven by {}: PANIC: {}", backend, exec_name, p), replay: json!({"kind": "c13-executors"}) });
+                }
+            }
+        }
+    }
+    Ok(total)
 }
 
 fn only_panics(r: CaseResult) -> CaseResult {
@@ -375,6 +458,16 @@ pub fn run(ctx: &RunCtx) -> i32 {
         stats.merge(s);
         failure = f;
     }
+    // (g) other executors
+    if failure.is_none() {
+        match executor_sweep() {
+            Ok(n) => {
+                stats.evaluations += n;
+                stats.label_n("async_calls_under_futures_and_async_std_executors", n);
+            }
+            Err(f) => failure = Some(f),
+        }
+    }
     // (f) async port
     if failure.is_none() {
         let (s, f) = super::c15::panic_part(ctx);
@@ -388,7 +481,7 @@ pub fn run(ctx: &RunCtx) -> i32 {
         RULE,
         &stats,
         json!({"regress_replayed": reg.replayed, "known_findings_confirmed": reg.known_confirmed}),
-        &["OverlayFS::new(&[]) is the one documented panic and is not called", "copy_dir/move_dir into the source's own subtree are not generated (documented non-termination)", "FIFOs, sockets and permission tricks are not generated (opening a FIFO blocks; the harness runs as root)", "async code runs on a tokio current-thread runtime, as the repository's tests do"],
+        &["OverlayFS::new(&[]) is the one documented panic and is not called", "copy_dir/move_dir into the source's own subtree are not generated (documented non-termination)", "FIFOs, sockets and permission tricks are not generated (opening a FIFO blocks; the harness runs as root)", "the generated async parts run on a tokio current-thread runtime, as the repository's tests do; the other executors get one fixed battery of calls"],
         failure.is_some() as u32,
     );
     finish(ctx, &stats, &failure, &[("hist_cases_with_root_mutator", 100), ("stale_handle_cases", 100), ("hostile_dir_cases", 50), ("embedded_calls", 1000)])
